@@ -20,6 +20,7 @@ import (
 	"time"
 
 	"github.com/onsi/gomega"
+	"github.com/synnaxlabs/synnax/pkg/distribution"
 	"github.com/synnaxlabs/synnax/pkg/distribution/channel"
 	"github.com/synnaxlabs/synnax/pkg/distribution/framer"
 	"github.com/synnaxlabs/synnax/pkg/distribution/mock"
@@ -27,6 +28,7 @@ import (
 	"github.com/synnaxlabs/synnax/pkg/storage/ts"
 	"github.com/synnaxlabs/x/control"
 	"github.com/synnaxlabs/x/telem"
+	xtypes "github.com/synnaxlabs/x/types"
 	"verifkit/seqx"
 	"verifkit/vk"
 )
@@ -40,6 +42,7 @@ type scenario struct {
 	depth int
 	seed  []string // ops applied before exploration starts
 	ops   string   // alphabet selector
+	limit int      // channel limit enforced by the overflow check (0 = none)
 }
 
 type sys struct {
@@ -50,6 +53,7 @@ type sys struct {
 	deleted  map[channel.Key]bool // keys whose delete succeeded
 	lastFail bool
 	lastOp   string // kind (+ option) of the last op
+	lastErr  string // class of the last op's error
 	hist     []string
 	stuck    bool   // a wait for convergence timed out on this instance
 	stale    string // name lookup that kept failing
@@ -58,7 +62,17 @@ type sys struct {
 
 func newSys(sc scenario) (seqx.Sys, error) {
 	s := &sys{sc: sc, issued: map[channel.Key]bool{}, deleted: map[channel.Key]bool{}}
-	s.c = mock.ProvisionCluster(ctx, sc.nodes)
+	if sc.limit > 0 {
+		lim := sc.limit
+		s.c = mock.ProvisionCluster(ctx, sc.nodes, distribution.LayerConfig{TestingIntOverflowCheck: func(c xtypes.Uint20) error {
+			if int(c) > lim {
+				return errors.New("channel limit reached")
+			}
+			return nil
+		}})
+	} else {
+		s.c = mock.ProvisionCluster(ctx, sc.nodes)
+	}
 	for _, op := range sc.seed {
 		if _, err := s.Apply(op); err != nil {
 			return nil, fmt.Errorf("seed op %q: %w", op, err)
@@ -256,8 +270,11 @@ func (s *sys) Ops() []string {
 			l := leases[len(leases)-1]
 			ops = append(ops, fmt.Sprintf("mk %d %s vir a -", g, l), fmt.Sprintf("mk %d %s vir a rin", g, l), fmt.Sprintf("mk %d %s vir a ow", g, l),
 				fmt.Sprintf("mk %d %s idx a ow", g, l), fmt.Sprintf("mk %d %s idx b rin", g, l), fmt.Sprintf("mk %d %s dat a ow", g, l),
-				fmt.Sprintf("mk %d F fvir a ow", g), fmt.Sprintf("mk %d F fvir b rin", g))
+				fmt.Sprintf("mk %d F fvir a ow", g), fmt.Sprintf("mk %d F fvir b rin", g),
+				fmt.Sprintf("mkb %d rin-leased", g), fmt.Sprintf("mkb %d rin-free", g), fmt.Sprintf("mk %d F fvir c -", g))
 		}
+	case "limit":
+		ops = append(ops, "mk 1 1 idx a -", "mk 1 1 dat b -", "mk 1 1 idx c -", "mk 1 1 dat d -", "mk 1 1 vir e -", "mkb 1 mixed")
 	case "batches":
 		for _, g := range gws {
 			ops = append(ops, fmt.Sprintf("mkb %d mixed", g), fmt.Sprintf("mkb %d dupname", g), fmt.Sprintf("mkb %d badname", g),
@@ -410,6 +427,17 @@ func (s *sys) Apply(op string) (obs string, err error) {
 				return channel.Channel{Name: name, Leaseholder: leaseOf(l), DataType: telem.Int64T, LocalIndex: 900}
 			}
 			switch f[2] {
+			case "rin-leased":
+				l := fmt.Sprint(s.sc.nodes)
+				chs = []channel.Channel{v(l, "a"), v(l, "x"), v(l, "b"), v(l, "y")}
+				opts = append(opts, channel.RetrieveIfNameExists())
+			case "rin-free":
+				fa, _ := s.mkChannel("F", "fvir", "a")
+				fx, _ := s.mkChannel("F", "fvir", "x")
+				fb, _ := s.mkChannel("F", "fvir", "b")
+				fy, _ := s.mkChannel("F", "fvir", "y")
+				chs = []channel.Channel{fa, fx, fb, fy}
+				opts = append(opts, channel.RetrieveIfNameExists())
 			case "mixed":
 				ix, _ := s.mkChannel(me, "idx", "x")
 				fv, _ := s.mkChannel("F", "fvir", "z")
@@ -434,7 +462,7 @@ func (s *sys) Apply(op string) (obs string, err error) {
 		err := s.write(g, func(w channel.Writer) error { return w.CreateMany(ctx, &chs, opts...) })
 		obs = short(err)
 		if err != nil {
-			s.lastFail = true
+			s.lastFail, s.lastErr = true, errClass(err)
 			break
 		}
 		views, _ := s.converge()
@@ -452,8 +480,11 @@ func (s *sys) Apply(op string) (obs string, err error) {
 			if k.Leaseholder() != c.Leaseholder {
 				return obs, vk.Violationf("key-does-not-embed-leaseholder", "%s: key %d of %v", op, k, c)
 			}
-			if _, was := liveBefore[k]; was {
-				continue // retrieve-if-exists / overwrite returned an existing channel
+			if prev, was := liveBefore[k]; was {
+				if len(opts) > 0 && prev.Name == c.Name {
+					continue // retrieve-if-exists / overwrite returned the existing channel of that name
+				}
+				return obs, vk.Violationf("key-reused", "%s returned key %d for %q, but that key belongs to live channel %q", op, k, c.Name, prev.Name)
 			}
 			if s.issued[k] {
 				return obs, vk.Violationf("key-reused", "%s returned key %d, which an earlier create had already issued (deleted=%v)", op, k, s.deleted[k])
@@ -493,7 +524,7 @@ func (s *sys) Apply(op string) (obs string, err error) {
 		err := s.write(g, func(w channel.Writer) error { return w.RenameMany(ctx, keys, nn, false) })
 		obs = short(err)
 		if err != nil {
-			s.lastFail = true
+			s.lastFail, s.lastErr = true, errClass(err)
 			break
 		}
 		views, _ := s.converge()
@@ -524,7 +555,7 @@ func (s *sys) Apply(op string) (obs string, err error) {
 		err := s.write(g, func(w channel.Writer) error { return w.DeleteMany(ctx, keys, false) })
 		obs = short(err)
 		if err != nil {
-			s.lastFail = true
+			s.lastFail, s.lastErr = true, errClass(err)
 			break
 		}
 		for _, k := range keys {
@@ -538,9 +569,28 @@ func (s *sys) Apply(op string) (obs string, err error) {
 
 func (s *sys) fpPrefix() string {
 	if s.lastFail {
-		return "after-failed-request-in-aborted-tx:" + s.lastOp + ":"
+		return "after-failed-request-in-aborted-tx:" + s.lastOp + ":" + s.lastErr + ":"
 	}
 	return ""
+}
+
+// errClass names why a request failed (part of the fingerprint of what it left behind)
+func errClass(err error) string {
+	m := err.Error()
+	for _, kv := range [][2]string{
+		{"limit", "limit-reached"},
+		{"indexes data", "index-in-use"},
+		{"does not exist", "missing-index"},
+		{"already exists", "name-exists"},
+		{"duplicate channel name", "duplicate-name-in-request"},
+		{"invalid characters", "invalid-name"},
+		{"not found", "not-found"},
+	} {
+		if strings.Contains(m, kv[0]) {
+			return kv[1]
+		}
+	}
+	return "other"
 }
 
 func (s *sys) Check() error {
@@ -707,6 +757,7 @@ func main() {
 			{name: "1 node, kinds, direct", nodes: 1, depth: 4, ops: "kinds"},
 			{name: "1 node, options, tx", nodes: 1, tx: true, depth: 4, ops: "options"},
 			{name: "1 node, batches, tx", nodes: 1, tx: true, depth: 3, ops: "batches"},
+			{name: "1 node, channel limit 2, tx", nodes: 1, tx: true, depth: 4, ops: "limit", limit: 2},
 			{name: "2 nodes, kinds from an index, tx", nodes: 2, tx: true, depth: 3, ops: "kinds", seed: seedIdx},
 			{name: "2 nodes, batches, direct", nodes: 2, depth: 2, ops: "batches"},
 		}
@@ -717,6 +768,8 @@ func main() {
 			{name: "1 node, options, tx", nodes: 1, tx: true, depth: 5, ops: "options"},
 			{name: "1 node, options, direct", nodes: 1, depth: 4, ops: "options"},
 			{name: "1 node, batches, tx", nodes: 1, tx: true, depth: 4, ops: "batches"},
+			{name: "1 node, channel limit 2, tx", nodes: 1, tx: true, depth: 5, ops: "limit", limit: 2},
+			{name: "1 node, channel limit 3, direct", nodes: 1, depth: 5, ops: "limit", limit: 3},
 			{name: "2 nodes, kinds from an index, tx", nodes: 2, tx: true, depth: 4, ops: "kinds", seed: seedIdx},
 			{name: "2 nodes, options, direct", nodes: 2, depth: 3, ops: "options"},
 			{name: "2 nodes, batches, direct", nodes: 2, depth: 3, ops: "batches"},
